@@ -556,27 +556,33 @@ Proof.
       (eapply Hno; eauto; congruence).
   - (* ASend *)
     inv_step H.
+    + exists r. split; auto. apply rel_set_pc; auto. intros; discriminate.
     + destruct (rel_sent _ _ _ _ _ _ HI HR Heqs0 Heqo Heqo0) as [Hm HR1].
       simpl. rewrite scan1_soft by (apply (R_soft _ _ HR) || exact I). simpl. rewrite Hm.
       rewrite scan1_soft by ((unfold soft; simpl; auto) || exact I). simpl.
       eexists; split; [reflexivity|]. exact HR1.
-    + exists r. split; auto. apply rel_set_pc; auto. intros; discriminate.
   - (* ASendCtx *)
-    inv_step H.
-    + (* frame written, then the socket is closed under it *)
-      destruct (rel_sent _ _ _ _ _ _ HI HR Heqs0 Heqo Heqo0) as [Hm HR1].
-      simpl. rewrite scan1_soft by (apply (R_soft _ _ HR) || exact I). simpl. rewrite Hm.
-      rewrite scan1_soft by ((unfold soft; simpl; auto) || exact I). simpl.
-      rewrite scan1_soft by ((unfold soft; simpl; auto) || exact I). simpl.
-      eexists; split; [reflexivity|].
-      eapply (rel_kill _ _ c c0 (c_kill c0 (CWriteCtx i))) in HR1; [exact HR1 | exact Heqo | |reflexivity].
-      unfold c_kill; simpl. rewrite Heqo0. discriminate.
-    + (* write fails and the socket is closed *)
-      rewrite scan_closed1 by apply (R_soft _ _ HR). eexists; split; [reflexivity|].
-      apply rel_set_pc; [|intros; discriminate].
-      eapply rel_kill; eauto. unfold c_kill; simpl. rewrite Heqo0. discriminate.
-    + (* write fails cleanly *)
-      exists r. split; auto. apply rel_set_pc; [|intros; discriminate]. eapply rel_set_cn_same; eauto.
+    inv_step H; try
+    first
+    [ (* frame written, then the socket is closed under it *)
+      destruct (rel_sent _ _ _ _ _ _ HI HR Heqs0 Heqo Heqo0) as [Hm HR1];
+      simpl; rewrite scan1_soft by (apply (R_soft _ _ HR) || exact I); simpl; rewrite Hm;
+      rewrite scan1_soft by ((unfold soft; simpl; auto) || exact I); simpl;
+      rewrite scan1_soft by ((unfold soft; simpl; auto) || exact I); simpl;
+      eexists; split; [reflexivity|];
+      eapply (rel_kill _ _ c c0 (c_kill c0 (CWriteCtx i))) in HR1; [exact HR1 | exact Heqo | |reflexivity];
+      unfold c_kill; simpl; rewrite Heqo0; discriminate
+    | (* write fails and the socket is closed *)
+      rewrite scan_closed1 by apply (R_soft _ _ HR); eexists; split; [reflexivity|];
+      apply rel_set_pc; [|intros; discriminate];
+      eapply rel_kill; eauto; unfold c_kill; simpl; rewrite Heqo0; discriminate
+    | (* write fails cleanly *)
+      exists r; split; auto; apply rel_set_pc; [|intros; discriminate]; eapply rel_set_cn_same; eauto ].
+    destruct (rel_sent _ _ _ _ _ _ HI HR Heqs0 Heqo Heqo0) as [Hm HR1].
+    simpl. rewrite scan1_soft by (apply (R_soft _ _ HR) || exact I). simpl. rewrite Hm. simpl.
+    eexists; split; [reflexivity|].
+    assert (Hdd : c_dead (c_kill c0 (CWriteCtx i)) <> None) by (unfold c_kill; simpl; rewrite Heqo0; discriminate).
+    exact (rel_kill _ _ c c0 (c_kill c0 (CWriteCtx i)) HR1 Heqo Hdd eq_refl).
   - (* AClose *)
     inv_step H. destruct (rel_shut _ _ _ _ _ _ HR Heqp) as [r1 [E1 HR1]].
     destruct (scan_tail_quiet _ (ret_evs i k) _ _ E1 (R_soft _ _ HR1) (ret_evs_quiet i k)) as [r2 [E2 E3]].
@@ -612,4 +618,22 @@ Proof.
       try (rewrite scan1_soft by (apply soft_clr || exact I || (unfold soft; simpl; auto))); simpl;
       (eexists; split; [reflexivity|]);
       (eapply rel_ext; [apply (rel_canc_more _ _ i HR)| | | |]; reflexivity).
-Admitted.
+Qed.
+
+(* ---- routing: the log of every accepted action list passes the scanner ---- *)
+Theorem routing_proof : forall idl tr s log, run (init idl) tr = Some (s, log) -> routing_b log = true.
+Proof.
+  intros idl tr s log H.
+  assert (G : Good s /\ NoConnYet s /\ exists r, scan rs0 log = Some r /\ Rel s r).
+  { revert H. apply (run_ind (fun s log => Good s /\ NoConnYet s /\ exists r, scan rs0 log = Some r /\ Rel s r) (init idl)).
+    - split; [apply good_init|]. split; [apply noconn_init|]. exists rs0. split; [reflexivity | apply rel_init].
+    - intros s0 l0 a s1 e1 HH Hst. destruct HH as (HG & HN & r0 & Hs & HR). destruct HG as (HI & HD & HC).
+      assert (HG1 : Good s1) by (apply (good_step s0 a s1 e1); [split; [|split]; assumption | exact Hst]).
+      assert (HN1 : NoConnYet s1) by (eapply noconn_step; eauto).
+      cbv beta. split; [exact HG1|]. split; [exact HN1|].
+      destruct (rel_step _ _ _ _ _ HI HD HN HR Hst) as (r1 & E1 & HR1).
+      exists r1. split; auto. rewrite scan_app, Hs. exact E1. }
+  destruct G as (_ & _ & r & Hs & HR). unfold routing_b. rewrite Hs.
+  pose proof (R_soft _ _ HR) as Hsoft. unfold soft, scan_end in *.
+  destruct (r_exp r) as [[[[[? ?] []] ?] ?]|]; auto.
+Qed.
